@@ -19,6 +19,31 @@ inductive PyErr where
   | valueError | typeError | xyzError | stopIteration | keyError | indexError | fileNotFound | other
 deriving Repr, DecidableEq, Inhabited
 
+/-- the effects a reap can attempt, as the skeletons record them -/
+inductive Eff where
+  | checkReady     -- check_ready_to_reap (raises when the crop is not ready)
+  | allNan         -- reading a finished batch to build the all-missing stand-in
+  | loadInfo       -- reading the crop's info file
+  | gather         -- the runner driving the Reaper: result files are read
+  | label          -- building the Dataset / DataFrame from the results
+  | reaperExit     -- the Reaper's exit check ("Not all results reaped!")
+  | setLast        -- recording the data as the farmer's last result
+  | sync           -- Harvester.add_ds / Sampler.add_df: merge with the store and save
+  | deleteAll      -- removing the crop directory
+deriving Repr, DecidableEq, Inhabited
+
+/-- run another skeleton, then continue on its trace unless it raised -/
+def skBind (r : List Eff × Option PyErr) (k : List Eff → List Eff × Option PyErr) : List Eff × Option PyErr :=
+  match r with
+  | (t, some e) => (t, some e)
+  | (t, none) => k t
+
+@[simp] theorem skBind_err (t : List Eff) (e : PyErr) (k) : skBind (t, some e) k = (t, some e) := rfl
+@[simp] theorem skBind_ok (t : List Eff) (k) : skBind (t, none) k = k t := rfl
+theorem skBind_ite (c : Prop) [Decidable c] (a b : List Eff × Option PyErr) (k) :
+    skBind (if c then a else b) k = if c then skBind a k else skBind b k := by
+  split <;> rfl
+
 end Gen
 
 namespace Gen.Default
